@@ -170,7 +170,7 @@ func clCheck(prop, rule string, nontriv []string, worldsQ, worldsT int, tune fun
 	register(ck)
 }
 
-var allKinds = []string{"v1u", "v1o", "v2a", "v2", "loc", "loco", "v1x"}
+var allKinds = []string{"v1u", "v1o", "v2a", "v2", "loc", "loco", "v1x", "v1h", "v1ho"}
 
 // denomGrammar: native denominations of the token worlds. SDK denom alphabet, 1-4 '/'-separated
 // segments, segments shaped like ports, channel ids, client ids, "ibc", hashes.
